@@ -25,19 +25,19 @@ KeyShapes == { <<skey, dnum, dsize>> \in (2..MaxSKey) \X (1..MaxSKey) \X (1..Max
 Keys(bkey) == { k \in KeyShapes : k[1] * bkey <= MaxKeyBits /\ k[1] * bkey >= MinKeyBits }
 
 XpOut == UNION { UNION { { D("xp", m2, bin, bkey, bout, sin, ks[1], sout, r, ks[2], ks[3], pc) :
-                             m2 \in M2Out, bin \in Bs, bout \in Bs, sin \in 2..MaxSIn, sout \in ({ks[1] - 1, ks[1], ks[1] + 1} \cap (2..(MaxSKey + 1))),
+                             m2 \in M2Out, bin \in Bs, bout \in Bs, sin \in 1..MaxSIn, sout \in ({1, ks[1] - 1, ks[1], ks[1] + 1} \cap (1..(MaxSKey + 1))),
                              r \in Ranks, pc \in PCs }
                          : ks \in Keys(bkey) } : bkey \in Bs }
 \* every GGSW plaintext on a lighter shape set
 XpM2 == UNION { { D("xp", m2, bin, bkey, bin, 4, ks[1], 4, r, ks[2], ks[3], 1) : m2 \in M2s, bin \in Bs, r \in Ranks, ks \in {k \in Keys(bkey) : k[1] * bkey >= 18 /\ k[3] <= 2} } : bkey \in Bs }
 XpIn == UNION { { D("xp_assign", m2, bin, bkey, bin, sin, ks[1], sin, r, ks[2], ks[3], pc) :
-                    m2 \in M2Out, bin \in Bs, sin \in 2..MaxSIn, r \in Ranks, ks \in Keys(bkey), pc \in PCs } : bkey \in Bs }
+                    m2 \in M2Out, bin \in Bs, sin \in 1..MaxSIn, r \in Ranks, ks \in Keys(bkey), pc \in PCs } : bkey \in Bs }
 \* CMux: the library requires one radix for branches, result and selector
 Bit(b) == Unit(0, b)
 Cmux == UNION { { D(op, Bit(bit), b, b, b, sin, ks[1], sin + ds, r, ks[2], ks[3], pc) :
-                    op \in {"cmux"}, bit \in {0, 1}, sin \in 3..MaxSIn, ds \in {-1, 0, 1}, r \in Ranks, ks \in {k \in Keys(b) : k[1] * b >= 18}, pc \in PCs } : b \in Bs }
+                    op \in {"cmux"}, bit \in {0, 1}, sin \in 1..MaxSIn, ds \in {-1, 0, 1}, r \in Ranks, ks \in Keys(b), pc \in PCs } \ {x \in {} : TRUE} : b \in Bs }
 CmuxIn == UNION { { D(op, Bit(bit), b, b, b, sin, ks[1], sin, r, ks[2], ks[3], pc) :
-                    op \in {"cmux_assign", "cmux_assign_neg"}, bit \in {0, 1}, sin \in 3..MaxSIn, r \in Ranks, ks \in {k \in Keys(b) : k[1] * b >= 18}, pc \in PCs } : b \in Bs }
+                    op \in {"cmux_assign", "cmux_assign_neg"}, bit \in {0, 1}, sin \in 1..MaxSIn, r \in Ranks, ks \in Keys(b), pc \in PCs } : b \in Bs }
 \* GGSW x GGSW: a has dnum_a rows of digit size 1 in the input radix
 GgswXp == UNION { { With(D("ggsw_xp", m2, bin, bkey, bin, 5, ks[1], sout, r, ks[2], ks[3], 1), [m1 |-> m1, dnum_a |-> da, dnum_r |-> dr]) :
                       m2 \in {Unit(2, 1), Unit(0, -1), Zero}, m1 \in {Unit(1, 1), Dense2}, bin \in Bs, sout \in {5, 6}, r \in Ranks, da \in {2, 4}, dr \in {2, 4, 5},
@@ -46,8 +46,9 @@ GgswXpIn == UNION { { With(D("ggsw_xp_assign", m2, bin, bkey, bin, 5, ks[1], 5, 
                       m2 \in {Unit(2, 1), Unit(0, -1)}, m1 \in {Unit(1, 1), Dense2}, bin \in Bs, r \in Ranks, da \in {2, 4},
                       ks \in {k \in Keys(bkey) : k[1] * bkey >= 18 /\ k[3] <= 2 /\ k[2] * k[3] >= k[1] - 1} } : bkey \in Bs }
 
-Descs == XpOut \cup XpM2 \cup XpIn \cup Cmux \cup CmuxIn \cup GgswXp \cup GgswXpIn
+Descs0 == XpOut \cup XpM2 \cup XpIn \cup Cmux \cup CmuxIn \cup GgswXp \cup GgswXpIn
 
+Descs == { d \in Descs0 : d.sout >= 1 }
 ASSUME ndJsonSerialize(IOEnv.OUT, SetToSeq(Descs))
 ASSUME PrintT(<<"GENERATED", Cardinality(Descs)>>)
 VARIABLE c
